@@ -276,6 +276,12 @@ MUTANTS = [
         "GeneInterval.iter_children drains a work list kept on the instance: two half-consumed iterations steal from each other",
     ),
     (
+        "c10_merge_qualifiers_grows_callers_parent_sets", "C10", G + "gene/interval.py",
+        "                if key not in merged:\n                    merged[key] = set()\n                merged[key].update(vals)\n",
+        "                if key not in merged:\n                    merged[key] = vals\n                else:\n                    merged[key].update(vals)\n",
+        "merged qualifiers alias the caller's parent-qualifier sets for keys the interval lacks: later additions (own identifiers) land in the caller's dict",
+    ),
+    (
         "c10_liftover_memo_keyed_by_id", "C10", G + "location/location.py",
         "        try:\n            self.first_ancestor_of_type(sequence_type)\n        except NoSuchAncestorException:\n            raise NoSuchAncestorException(\"Location has no ancestor of type {}\".format(sequence_type))\n        if self.parent_type == sequence_type:\n            return self\n        lifted_to_grandparent = self.parent.lift_child_location_to_parent()\n        return lifted_to_grandparent.lift_over_to_first_ancestor_of_type(sequence_type)\n",
         "        key = (id(self), str(sequence_type))\n        if key in _LIFT_MEMO:\n            return _LIFT_MEMO[key]\n        try:\n            self.first_ancestor_of_type(sequence_type)\n        except NoSuchAncestorException:\n            raise NoSuchAncestorException(\"Location has no ancestor of type {}\".format(sequence_type))\n        if self.parent_type == sequence_type:\n            return self\n        lifted_to_grandparent = self.parent.lift_child_location_to_parent()\n        res = lifted_to_grandparent.lift_over_to_first_ancestor_of_type(sequence_type)\n        if len(_LIFT_MEMO) < 4096:\n            _LIFT_MEMO[key] = res\n        return res\n",
